@@ -1,6 +1,7 @@
 //! Transition-system generator. "Well-formed" means: every expression type-checks; constraints and
 //! bad states are 1-bit; init/next have the state's type; every symbol used is a declared input or
-//! state; names are distinct; init expressions refer only to literals and earlier states.
+//! state; names are distinct; init expressions refer only to literals, earlier states and (with low
+//! weight) inputs.
 
 use crate::gen_expr::{ExprGen, GenCfg, WidthProfile};
 use crate::refval::Bv;
@@ -24,8 +25,9 @@ pub struct SysCfg {
     pub names_and_aliases: bool,
     pub max_bads: u32,
     pub max_constraints: u32,
-    /// bias bad states towards `state == value` shapes (reachable at some depth)
     pub divrem: bool,
+    /// allow init expressions that read inputs (the initial state depends on the first input)
+    pub init_may_read_inputs: bool,
 }
 
 impl Default for SysCfg {
@@ -43,6 +45,7 @@ impl Default for SysCfg {
             max_bads: 3,
             max_constraints: 2,
             divrem: false,
+            init_may_read_inputs: true,
         }
     }
 }
@@ -121,7 +124,26 @@ pub fn gen_system(t: &mut Tape, cfg: &SysCfg) -> SysCase {
         input_types.push(Type::BV(w));
     }
 
-    // ---- states in declaration order; init may only mention earlier states and literals
+    // ---- inputs (an init expression may read inputs when `init_reads_inputs` is drawn: the
+    //      initial state then depends on the input of step 0, as in inputs/unittest/dangling.btor2)
+    let init_reads_inputs = cfg.init_may_read_inputs && t.chance(48);
+    let mut inputs = vec![];
+    for (k, tpe) in input_types.iter().enumerate() {
+        let name = if cfg.anon_inputs && t.chance(110) {
+            if t.flag() { format!("_input_{}", k) } else { format!("_state_{}", k) }
+        } else {
+            INPUT_NAMES[k % INPUT_NAMES.len()].to_string()
+        };
+        let sym = match tpe {
+            Type::BV(w) => ctx.bv_symbol(&name, *w),
+            Type::Array(a) => ctx.array_symbol(&name, a.index_width, a.data_width),
+        };
+        if init_reads_inputs {
+            g.add_symbol(&ctx, sym);
+        }
+        inputs.push(sym);
+    }
+    // ---- states in declaration order; init may only mention earlier states, literals (and inputs)
     let mut states: Vec<(ExprRef, Option<ExprRef>)> = vec![];
     for (k, tpe) in state_types.iter().enumerate() {
         let init = match t.weighted(&[3, 4, 3]) {
@@ -151,20 +173,10 @@ pub fn gen_system(t: &mut Tape, cfg: &SysCfg) -> SysCase {
         g.add_symbol(&ctx, sym);
         states.push((sym, init));
     }
-    // ---- inputs
-    let mut inputs = vec![];
-    for (k, tpe) in input_types.iter().enumerate() {
-        let name = if cfg.anon_inputs && t.chance(110) {
-            if t.flag() { format!("_input_{}", k) } else { format!("_state_{}", k) }
-        } else {
-            INPUT_NAMES[k % INPUT_NAMES.len()].to_string()
-        };
-        let sym = match tpe {
-            Type::BV(w) => ctx.bv_symbol(&name, *w),
-            Type::Array(a) => ctx.array_symbol(&name, a.index_width, a.data_width),
-        };
-        g.add_symbol(&ctx, sym);
-        inputs.push(sym);
+    if !init_reads_inputs {
+        for i in inputs.iter() {
+            g.add_symbol(&ctx, *i);
+        }
     }
     for i in inputs.iter() {
         sys.add_input(&ctx, *i);
